@@ -1178,6 +1178,38 @@ def concretize(x, m):
     return x
 
 
+def plain(x):
+    """turn constant-valued sym values (produced by non-forking combinators on concrete inputs) into python values"""
+    if _isinstance(x, SymBool):
+        e = z3.simplify(x.e)
+        if z3.is_true(e):
+            return True
+        if z3.is_false(e):
+            return False
+        raise RuntimeError("native observation is still symbolic: %r" % (x,))
+    if _isinstance(x, SymInt):
+        e = z3.simplify(x.e)
+        if z3.is_int_value(e) or z3.is_bv_value(e):
+            return e.as_long()
+        raise RuntimeError("native observation is still symbolic: %r" % (x,))
+    if _isinstance(x, SymStr):
+        r = mk(x.items)
+        if _isinstance(r, _str):
+            return r
+        raise RuntimeError("native observation is still symbolic: %r" % (x,))
+    if _isinstance(x, z3.BoolRef):
+        return plain(SymBool(x))
+    if _isinstance(x, (z3.ArithRef, z3.BitVecRef)):
+        return plain(SymInt(x))
+    if _isinstance(x, tuple):
+        return tuple(plain(y) for y in x)
+    if _isinstance(x, list):
+        return [plain(y) for y in x]
+    if _isinstance(x, dict):
+        return {k: plain(v) for k, v in x.items()}
+    return x
+
+
 def eq_term(a, b):
     """structural equality of two (nested) observation values as a z3 Bool"""
     if _isinstance(a, (SymBool, z3.BoolRef)) or _isinstance(b, (SymBool, z3.BoolRef)):
